@@ -153,6 +153,7 @@ RULE_PROPS = {
     "CrashAtomic": ["C04", "C13"],
     "Truthful": ["C13"], "OthersUntouched": ["C13"], "Returned": ["C20", "C13"], "EndStable": ["C07"],
     "Hang": ["C20", "C13"],
+    "TmpLeft": ["C14", "C13"],             # a temp file outlives the call (and the process) that made it
 }
 
 
@@ -545,7 +546,7 @@ def errnos_for(call):
     return []
 
 
-def fault_op_scenarios(rng, tier, lanes=("S", "Aa", "Ta")):
+def fault_op_scenarios(rng, tier, lanes=("S", "Aa", "Ta"), kinds=None):
     """one scenario per (operation, lane): warm state + the operation as the traced process +
     a continuation that repeats the same call without fault and looks at the other entries"""
     out = []
@@ -553,6 +554,8 @@ def fault_op_scenarios(rng, tier, lanes=("S", "Aa", "Ta")):
     for lane in lanes:
         for kind in ("write", "write_hash", "write_streamed_mmap", "write_over", "read", "read_hash", "metadata",
                      "copy", "copy_hash", "hard_link", "remove", "remove_hash", "list"):
+            if kinds is not None and kind not in kinds:
+                continue
             prog = {"keys": {}, "blobs": {}, "steps": []}
             key = G.add_key(prog, "fault-key-%d" % idx)
             other = G.add_key(prog, "other-%d" % idx)
@@ -839,12 +842,29 @@ def confinement_scenarios(rng, tier, lanes=("S", "Aa", "Ta")):
         ops += [("remove_fully_bare", {"op": "remove_fully", "key": key}, "bare"),
                 ("remove_bare", {"op": "remove", "key": key}, "bare"),
                 ("clear_bare", {"op": "clear"}, "bare")]
+        # read-only calls that meet DAMAGED or missing content report it and change nothing (no
+        # "self-healing" deletion, no quarantine file)
+        dops = [("read_damaged", {"op": "read", "key": key}, "damaged"),
+                ("read_hash_damaged", {"op": "read", "sri": sri}, "damaged"),
+                ("copy_damaged", {"op": "extract", "kind": "copy", "checked": True, "key": key, "to": "outd%d" % ki}, "damaged"),
+                ("hard_link_damaged", {"op": "extract", "kind": "hard_link", "checked": True, "sri": sri, "to": "hld%d" % ki}, "damaged"),
+                ("exists_damaged", {"op": "exists", "sri": sri}, "damaged"),
+                ("read_content_gone", {"op": "read", "key": key}, "gone")]
         if q:
-            ops = [ops[0]] + rng.sample(ops[1:-3], 4) + rng.sample(ops[-3:], 2)
+            ops = [ops[0]] + rng.sample(ops[1:-3], 4) + rng.sample(ops[-3:], 2) + rng.sample(dops, 3)
+        else:
+            ops += dops
         for name, st, needs in ops:
             lane = rng.choice(lanes)
             warm = [{"op": "write", "lane": "S", "key": key, "data": d, "algo": "sha256"}] if needs is True else \
                    ([{"op": "remove", "lane": "S", "key": key}] if needs == "bare" else [])
+            if needs in ("damaged", "gone"):
+                dm = {"flip": {"mode": "flip", "bit": rng.randrange(21 * 8)}, "cut": {"mode": "cut", "len": rng.randrange(21)},
+                      "extend": {"mode": "extend", "extra": "00ff"}}[rng.choice(["flip", "cut", "extend"])]
+                if needs == "gone":
+                    dm = {"mode": "remove"}
+                warm = [{"op": "write", "lane": "S", "key": key, "data": d, "algo": "sha256"},
+                        dict({"op": "env_content", "algo": "sha256", "blob": d}, **dm)]
             out.append({"universe": {"keys": prog["keys"], "blobs": prog["blobs"]}, "warm": warm,
                         "procs": [dict(st, lane=lane)], "plan": {"kind": "free"}, "cont": [],
                         "variant": {"key": ks[:40], "op": name, "lane": lane},
